@@ -19,6 +19,7 @@ REQUIRED = {"quick": {"gl_rows_zeroed": 1500, "gl_rows_shrunk": 1500, "hier_rows
                       "insitu_calls": 500, "model_steps_feasibility_checked": 60, "model_steps_alpha_zero": 8, "partitions_exhaustive": 52 + 15 + 5 + 2 + 1},
             "thorough": {"hier_rows_compared": 300000, "gl_rows_shrunk": 100000, "insitu_calls": 10000}}
 SHARD_TIMEOUT = {"quick": 900, "thorough": 5400}
+REPOTESTS = {"thorough": 16}      # the repository's own test-suite, in 16 parts, under the same monitors
 
 
 def partitions(items):
